@@ -3,6 +3,9 @@
 -/
 import AuModel.Primes
 import AuProofs.Lemmas.Mod
+import Mathlib.Data.Nat.Sqrt
+import Mathlib.Tactic.Zify
+import Mathlib.Tactic.Linarith
 namespace Au
 namespace U64
 
@@ -162,54 +165,123 @@ theorem millerRabin_spec' {a n : Nat} (ha : 2 ≤ a) (han : a + 2 ≤ n) (hodd :
         · exact hex ⟨r, hr, by rw [key]; exact he⟩
       rw [if_neg this]
 
-theorem bind_wrapped' {α β : Type} (x : W α) (f : α → W β) : (x >>= f).wrapped = (x.wrapped || (f x.val).wrapped) := by
-  cases x; rfl
-theorem bind_val'' {α β : Type} (x : W α) (f : α → W β) : (x >>= f).val = (f x.val).val := by
-  cases x; rfl
+theorem squareTest_spec {n c : Nat} (hc : 0 < c) : squareTest n c = W.ok (decide (c * c = n)) := by
+  unfold squareTest
+  rw [div_ok hc, ok_bind]
+  have hdm := Nat.div_add_mod n c
+  by_cases h : n / c = c
+  · rw [if_pos h, mod_ok hc, ok_bind]
+    show W.ok (decide (n % c = 0)) = W.ok (decide (c * c = n))
+    congr 1
+    rw [h] at hdm
+    by_cases h0 : n % c = 0
+    · have : c * c = n := by omega
+      simp [h0, this]
+    · have : c * c ≠ n := by omega
+      simp [h0, this]
+  · rw [if_neg h]
+    show W.ok false = W.ok (decide (c * c = n))
+    congr 1
+    have : c * c ≠ n := by
+      intro he
+      apply h
+      rw [← he]
+      exact Nat.mul_div_cancel c hc
+    simp [this]
 
-/-- Soundness of `is_perfect_square` on the executions in which `curr * curr` never wraps: -/
-theorem perfectSquareLoop_sound (n : Nat) (fuel : Nat) : ∀ prev : Nat,
-    (perfectSquareLoop fuel prev n).val = true → (perfectSquareLoop fuel prev n).wrapped = false → ∃ r, r * r = n := by
+/-- Integer AM–GM: a Newton step from any `x ≥ 1` lands at or above `⌊√n⌋`. -/
+theorem newton_ge_sqrt (n x : Nat) (hx : 0 < x) : Nat.sqrt n ≤ (x + n / x) / 2 := by
+  have hs : Nat.sqrt n * Nat.sqrt n ≤ n := Nat.sqrt_le n
+  have h2 : 2 * Nat.sqrt n - x ≤ n / x := by
+    rw [Nat.le_div_iff_mul_le hx]
+    by_cases hle : x ≤ 2 * Nat.sqrt n
+    · have : (2 * Nat.sqrt n - x) * x ≤ Nat.sqrt n * Nat.sqrt n := by
+        zify [hle]
+        nlinarith [sq_nonneg ((Nat.sqrt n : ℤ) - (x : ℤ))]
+      omega
+    · have : 2 * Nat.sqrt n - x = 0 := by omega
+      rw [this]; simp
+  omega
+
+/-- A Newton step from strictly above `⌊√n⌋` strictly decreases. -/
+theorem newton_lt (n x : Nat) (hx : Nat.sqrt n < x) : (x + n / x) / 2 < x := by
+  have h1 : n < x * x := Nat.sqrt_lt.1 hx
+  have h2 : n / x < x := by
+    rw [Nat.div_lt_iff_lt_mul (by omega)]
+    exact h1
+  omega
+
+theorem perfectSquareLoop_spec (n : Nat) (hn2 : 2 ≤ n) (hn : n < M) (fuel : Nat) : ∀ prev : Nat,
+    prev + 1 ≤ fuel → 1 ≤ prev → Nat.sqrt n ≤ prev → prev ≤ n / 2 →
+    perfectSquareLoop fuel prev n = W.ok (decide (Nat.sqrt n * Nat.sqrt n = n)) := by
+  have hs1 : 1 ≤ Nat.sqrt n := by
+    rw [Nat.le_sqrt]; omega
   induction fuel with
-  | zero =>
-    intro prev hv _
-    unfold perfectSquareLoop at hv
-    simp [W.outOfFuel] at hv
+  | zero => intro prev h; omega
   | succ f ih =>
-    intro prev hv hw
-    unfold perfectSquareLoop at hv hw
-    simp only [bind_val'', bind_wrapped', Bool.or_eq_false_iff] at hv hw
-    obtain ⟨_, _, _, hmul, hrest⟩ := hw
-    have hlt : ¬ (M ≤ (div (add prev (div n prev).val).val 2).val * (div (add prev (div n prev).val).val 2).val) := by
-      simpa [mul] using hmul
-    have hsq : (mul (div (add prev (div n prev).val).val 2).val (div (add prev (div n prev).val).val 2).val).val
-        = (div (add prev (div n prev).val).val 2).val * (div (add prev (div n prev).val).val 2).val := by
-      simp only [mul]
-      exact Nat.mod_eq_of_lt (by omega)
-    split at hv
-    · rename_i heq
-      exact ⟨_, by rw [← hsq]; exact heq⟩
-    · rename_i hne
-      rw [if_neg hne] at hrest
-      split at hv
-      · simp [pure_eq_ok] at hv
-      · rename_i hge
-        rw [if_neg hge] at hrest
-        exact ih _ hv hrest
+    intro prev hf h1 hsp hhalf
+    unfold perfectSquareLoop
+    simp only []
+    have hsum : prev + n / prev < M := by
+      by_cases hp : prev = 1
+      · subst hp
+        have : Nat.sqrt n = 1 := by omega
+        have : n < 4 := by
+          have := Nat.sqrt_lt.1 (show Nat.sqrt n < 2 by omega)
+          omega
+        have hM : 8 < M := by decide
+        simp; omega
+      · have : n / prev ≤ n / 2 := Nat.div_le_div_left (by omega) (by decide)
+        omega
+    have hcs := newton_ge_sqrt n prev (by omega)
+    have hc0 : 0 < (prev + n / prev) / 2 := by omega
+    rw [div_ok (by omega), ok_bind, add_ok hsum, ok_bind, div_ok (by decide), ok_bind, squareTest_spec hc0, ok_bind]
+    by_cases hsq : (prev + n / prev) / 2 * ((prev + n / prev) / 2) = n
+    · have hdec : decide ((prev + n / prev) / 2 * ((prev + n / prev) / 2) = n) = true := by simp [hsq]
+      rw [hdec, if_pos rfl]
+      have : Nat.sqrt n = (prev + n / prev) / 2 := by
+        have h' := Nat.sqrt_eq ((prev + n / prev) / 2)
+        rw [hsq] at h'
+        exact h'
+      rw [this]
+      simp [hsq, pure_eq_ok]
+    · have hdec : decide ((prev + n / prev) / 2 * ((prev + n / prev) / 2) = n) = false := by simp [hsq]
+      rw [hdec, if_neg (by simp)]
+      by_cases hge : (prev + n / prev) / 2 ≥ prev
+      · rw [if_pos hge]
+        have hps : prev = Nat.sqrt n := by
+          by_contra hne
+          have := newton_lt n prev (by omega)
+          omega
+        have hnot : ¬ (Nat.sqrt n * Nat.sqrt n = n) := by
+          intro he
+          apply hsq
+          have hdiv : n / prev = prev := by
+            rw [hps]
+            have h' := Nat.mul_div_cancel (Nat.sqrt n) (show 0 < Nat.sqrt n by omega)
+            rw [he] at h'
+            exact h'
+          rw [hdiv]
+          have : (prev + prev) / 2 = prev := by omega
+          rw [this, hps]; exact he
+        simp [hnot, pure_eq_ok]
+      · rw [if_neg hge]
+        exact ih _ (by omega) (by omega) hcs (by omega)
 
-theorem isPerfectSquare_sound (n : Nat) (hv : (isPerfectSquare n).val = true)
-    (hw : (isPerfectSquare n).wrapped = false) : ∃ r, r * r = n := by
-  unfold isPerfectSquare at hv hw
-  split at hv
-  · rename_i h
+theorem isPerfectSquare_spec' (n : Nat) (hn : n < M) :
+    isPerfectSquare n = W.ok (decide (Nat.sqrt n * Nat.sqrt n = n)) := by
+  unfold isPerfectSquare
+  by_cases h : n < 2
+  · rw [if_pos h]
     have : n = 0 ∨ n = 1 := by omega
-    rcases this with h | h
-    · exact ⟨0, by omega⟩
-    · exact ⟨1, by omega⟩
-  · rename_i h
-    rw [if_neg h] at hw
-    simp only [bind_val'', bind_wrapped', Bool.or_eq_false_iff] at hv hw
-    exact perfectSquareLoop_sound n _ _ hv hw.2
+    rcases this with h | h <;> subst h <;> simp [pure_eq_ok]
+  · rw [if_neg h, div_ok (by decide), ok_bind]
+    apply perfectSquareLoop_spec n (by omega) hn _ _ (Nat.le_refl _) (by omega) _ (Nat.le_refl _)
+    have hs : Nat.sqrt n * Nat.sqrt n ≤ n := Nat.sqrt_le n
+    by_cases h1 : Nat.sqrt n ≤ 1
+    · omega
+    · have : 2 * Nat.sqrt n ≤ Nat.sqrt n * Nat.sqrt n := Nat.mul_le_mul_right _ (by omega)
+      omega
 
 end U64
 end Au
